@@ -222,9 +222,13 @@ def finalize(session, prop, tier, seed, expected, replayers, kf_classes,
                 'pyvc symbolic interpreter (engine-vs-CPython differential in '
                 'thorough tier)', 'z3/cvc5'],
             'distinct_obligation_names': len(samples),
+            # contracted / entry functions, plus every repo function whose
+            # body the interpreter actually executed in some VC (sha256 of the
+            # source text that was verified)
             'functions_under_contract': [
                 {'function': k, 'sha256': v}
-                for k, v in sorted(S.functions.items())],
+                for k, v in sorted(dict(getattr(S.interp, 'executed', {}),
+                                        **S.functions).items())],
             'by_backend': by_backend,
             'solver_s': round(solver_s, 3),
             'paths_explored': S.paths,
